@@ -52,7 +52,7 @@ __CPROVER_requires(W_ROWS && W_STATE)
 __CPROVER_requires(__CPROVER_forall { int s; (0 <= s && s < CAP) ==> ONLY(s) })
 __CPROVER_requires(__CPROVER_forall { int u; (0 <= u && u < CAP) ==> (!g_state_is_fsm[u] || (g_composite[u] && !g_deferred[u])) })                                /* the machine itself is a composite and defers nothing [A: compile time] */
 __CPROVER_assigns(g_lo, g_hi, g_pos_i, g_pos_j, g_pos_sub, g_pos_def)
-__CPROVER_ensures(g_pos_i != NONE && g_pos_j != NONE && g_pos_j < g_pos_i)                                         /*@ob C01.later-declared-row-of-a-state-is-tried-first */
+__CPROVER_ensures(g_pos_i != NONE && g_pos_j != NONE && g_pos_j < g_pos_i)                                         /*@ob C01,C13.later-declared-row-of-a-state-is-tried-first */
 __CPROVER_ensures((g_composite[g_s] && !g_deferred[g_s] && !g_state_is_fsm[g_s]) ==> (g_pos_sub != NONE && g_pos_sub < g_pos_j))   /*@ob C01,C07.forwarding-to-the-submachine-is-tried-before-every-row */
 __CPROVER_ensures(!(g_composite[g_s] && !g_deferred[g_s]) ==> (g_pos_def != NONE && g_pos_def > g_pos_i))           /*@ob C01,C05.default-cell-comes-after-every-row */
 ;
